@@ -32,6 +32,7 @@ def run(tier):
             (asan, ["chars", "L=4", "from=4", "allmodes=0", "modes=7"]),
             (asan, ["tokens", "L=3", "allmodes=1", "modes=15"]),
             (asan, ["tokens", "L=3", "allmodes=0", "modes=7", "comments=0", "tcomma=1"]),
+            (asan, ["pairs", "allmodes=0", "modes=15"]),
         ]
     else:
         stages = [
@@ -40,6 +41,7 @@ def run(tier):
             (asan, ["tokens", "L=3", "allmodes=1", "modes=15"]),
             (fast, ["tokens", "L=4", "from=4", "allmodes=0", "modes=7", "cuts=1"]),
             (asan, ["tokens", "L=3", "allmodes=1", "modes=15", "comments=0", "tcomma=1"]),
+            (asan, ["pairs", "allmodes=1", "modes=15"]),
         ]
     for b, st in stages:
         ck.add(runner.run_slices(b, st, nslices=n, env=ENV))
@@ -52,7 +54,8 @@ def run(tier):
     if missing:
         sys.stderr.write("warning: C03 chunkings did not suspend the parser in states %s\n" % missing)
     ck.rule = ("JSON: every string of length <= L over a 31-character alphabet and every sequence of <= 3 (thorough 4) tokens "
-               "over a 25-token alphabet (long numbers, escapes, surrogate pairs, CR LF, comments); each delivered in every "
+               "over a 25-token alphabet (long numbers, escapes, surrogate pairs, CR LF, comments), and every ordered pair of 19 items (strings "
+               "with each escape class, numbers of each syntax class, literals, empty containers) in 5 two-value contexts; each delivered in every "
                "composition into chunks (inputs <= 12 bytes) or every <=2-cut and every uniform chunking (longer), to the "
                "incremental parser, json_reader and json_cursor over a scripted source (eager and lazy eof), stream_source(k) "
                "and iterator_source(k) for every k, a one-byte streambuf; access modes: recording visitor, json_decoder, cursor "
